@@ -411,7 +411,7 @@ def main_check(pid, tier, seed, replay=None):
     # 4c. thorough tier: independent re-check of the compiled proofs with coqchk
     if tier == "thorough" and pr["ok"] and not os.environ.get("VERIF_NO_COQCHK"):
         mod = "ShipProps." + os.path.basename(spec.get("props", "props/%s.v" % pid))[:-2]
-        rc, out, dt = sh(["coqchk", "-silent", "-o"] + COQ_Q[:9] + [mod], cwd=COQ, timeout=3000)
+        rc, out, dt = sh(["coqchk", "-silent", "-o"] + COQ_Q[:9] + [mod], cwd=COQ, timeout=9000)
         open(os.path.join(wd, "coqchk.log"), "w").write(out)
         notes.append("coqchk %s rc=%d %.0fs" % (mod, rc, dt))
         extra_cov["coqchk"] = dict(rc=rc, seconds=round(dt), tail=out[-1500:])
